@@ -41,6 +41,28 @@ def arr_inst(wrap, elem, dims, kind, idx, tier):
                 note='%s<%s>[%s(%s)]' % (wrap, arr_t, kind, idx))
 
 
+def adversarial_index_inst(wrap, idx, tier):
+    """an index that itself lives in sandbox memory (tainted_volatile<idx>) may be rewritten between any two reads
+    (goto-instrument --nondet-volatile): whatever is read, the designated element lies inside the array, or the call aborts"""
+    it = arr_inst(wrap, 'long', [4], 'tainted_volatile', idx, tier)
+    guest = wrap == 'tainted_volatile'
+    TA = cs('rlbox::%s<long[4], rlbox::vsbx>' % wrap)
+    esz = elem_size('long', guest)
+    base = '((uintptr_t)&((const struct %s *)$this)->data)' % TA
+    it.name = it.name + '_adversarial'
+    it.contract = [c for c in it.contract if c[0] in ('obj',)] + [
+        ('index_cell', '__CPROVER_requires(__CPROVER_r_ok($0, sizeof(*$0)))'),
+        ('designates_an_element_of_this_array_or_aborts', '__CPROVER_ensures(MI((uintptr_t)$ret) >= MI(%s) && MI((uintptr_t)$ret) < MI(%s) + MI(%d) && (MI((uintptr_t)$ret) - MI(%s)) %% MI(%d) == MI(0))' % (base, base, 4 * esz, base, esz)),
+        ('frame', '__CPROVER_assigns()')]
+    it.harness = it.harness.replace('g_noabort = in_noabort;', 'g_noabort = 0;')
+    it.nondet_volatile = True
+    it.opts = dict(it.opts or {}, amp_star=True, volatile_read_check=True)
+    it.replay = None
+    it.solvers = ('minisat', 'z3')
+    it.note = 'index in sandbox memory, adversarial reads: one fetch decides both the bounds check and the element'
+    return it
+
+
 def units(tier):
     insts = []
     if tier == 'quick':
@@ -54,6 +76,8 @@ def units(tier):
         insts.append(arr_inst('tainted_volatile', 'long', [2, 3], 'plain', 'unsigned char', tier))
         insts.append(arr_inst('tainted', 'long', [4], 'tainted', 'int', tier))
         insts.append(arr_inst('tainted_volatile', 'long', [4], 'tainted_volatile', 'unsigned int', tier))
+        insts.append(adversarial_index_inst('tainted', 'int', tier))
+        insts.append(adversarial_index_inst('tainted_volatile', 'unsigned long', tier))
     else:
         for wrap in ['tainted', 'tainted_volatile']:
             for idx in INDEX_TYPES:
@@ -62,6 +86,10 @@ def units(tier):
                 for kind in ['tainted', 'tainted_volatile']:
                     if idx in ('int', 'unsigned int', 'long', 'unsigned char', 'short', 'unsigned long'):
                         insts.append(arr_inst(wrap, 'long', [4], kind, idx, tier))
+    if tier != 'quick':
+        for wrap in ['tainted', 'tainted_volatile']:
+            for idx in ('int', 'unsigned long', 'short', 'unsigned char'):
+                insts.append(adversarial_index_inst(wrap, idx, tier))
     out = []
     for i in range(0, len(insts), 100):
         out.append(Unit('C17_array_index_%d' % (i // 100), insts[i:i + 100]))
